@@ -69,37 +69,28 @@ example :
 
 /-! ### `RepWF` holds for what the merge writes -/
 
-/-- Whatever `chooseRep` (`use1HitEncoding` + `writePostings`) selects is
-    well-formed provided every frequency-1 entry has norm bits that are non-zero
-    in their low 31 bits (the 1-hit FST value keeps only `mask31Bits & normBits`). -/
+/-- Whatever `chooseRep` (`use1HitEncoding` + `writePostings`) selects is well-formed: a 1-hit
+    value always carries non-zero norm bits, so a reader recognises it.  No hypothesis on the norms
+    (before the repair of D14 this needed "norm bits non-zero in their low 31 bits"). -/
 theorem C08_merge_writes_wf (parts : List (List Entry))
-    (hn : ∀ p ∈ parts, ∀ e ∈ p, e.freq = 1 → e.norm % 2 ^ 31 ≠ 0)
     (r : PostRep) (h : chooseRep parts = some r) : RepWF r := by
   cases r with
   | general es => trivial
   | oneHit d nb =>
-    obtain ⟨e, hes, _, _, hf, _, hnb⟩ := chooseRep_oneHit_inv h
-    have hmem : e ∈ parts.flatMap id := by rw [hes]; exact List.mem_singleton.2 rfl
-    obtain ⟨p, hp, he⟩ := List.mem_flatMap.1 hmem
-    show nb ≠ 0
-    rw [hnb]
-    exact hn p hp e he hf
+    obtain ⟨e, _, _, _, _, _, _, hnz, _⟩ := chooseRep_oneHit_inv h
+    exact hnz
 
-/-- The same under the hypothesis in its natural form: norm bits of frequency-1
-    entries are a positive float32 pattern (`0 < norm < 2^31`). Then the 1-hit
-    form also carries the norm bits unchanged. -/
-theorem C08_merge_writes_wf' (parts : List (List Entry))
-    (hn : ∀ p ∈ parts, ∀ e ∈ p, e.freq = 1 → 0 < e.norm ∧ e.norm < 2 ^ 31)
-    (r : PostRep) (h : chooseRep parts = some r) : RepWF r :=
-  C08_merge_writes_wf parts
-    (fun p hp e he hf => by
-      have := hn p hp e he hf
-      rw [Nat.mod_eq_of_lt this.2]; omega) r h
+/-- Defect D14, evaluated: the choice as it was wrote a 1-hit value with norm bits 0 for a lone
+    frequency-1 hit whose norm bits are 0 or 2^31 (an analysed length of 0, 2^31, 2^32, ...) - a value
+    that is NOT well-formed: `Count` and the enumeration take it for an empty list, and the next merge
+    drops the term.  The current choice writes the general form. -/
+theorem C08_D14_counterexample :
+    chooseRepD14 [[⟨4, 1, 0, []⟩]] = some (.oneHit 4 0) ∧ ¬ RepWF (.oneHit 4 0) ∧
+    chooseRepD14 [[], [⟨4, 1, 2147483648, []⟩]] = some (.oneHit 4 0) ∧
+    chooseRep [[⟨4, 1, 0, []⟩]] = some (.general [⟨4, 1, 0, []⟩]) ∧
+    chooseRep [[], [⟨4, 1, 2147483648, []⟩]] = some (.general [⟨4, 1, 2147483648, []⟩]) := by
+  refine ⟨by decide, by decide, by decide, by decide, by decide⟩
 
-/-- The norm hypothesis is necessary: norm bits `0` or `2^31` (sign bit only)
-    make `chooseRep` write a 1-hit with norm bits 0. -/
-example : chooseRep [[⟨4, 1, 0, []⟩]] = some (.oneHit 4 0) := by decide
-example : chooseRep [[], [⟨4, 1, 2147483648, []⟩]] = some (.oneHit 4 0) := by decide
 example : chooseRep [[⟨4, 1, 7, []⟩], []] = some (.general [⟨4, 1, 7, []⟩]) := by decide
 example : chooseRep [[], [⟨4, 1, 7, []⟩]] = some (.oneHit 4 7) := by decide
 
@@ -108,4 +99,4 @@ end Zap
 #print axioms Zap.C08_dict
 #print axioms Zap.C08_stale_1hit_counterexample
 #print axioms Zap.C08_merge_writes_wf
-#print axioms Zap.C08_merge_writes_wf'
+#print axioms Zap.C08_D14_counterexample
